@@ -111,6 +111,7 @@ class STensor(Symbolic):
         v = getattr(self, "_view", None)
         if v is None:
             it.cx.log_write(("obj", id(self), None))        # (a view has no storage of its own: the write is the viewed tensor's)
+            self._refresh_views()                           # every view taken of this tensor shows the update
         else:
             base, in_view, to_view = v
             old = base.fn
@@ -119,6 +120,19 @@ class STensor(Symbolic):
         st = getattr(self, "_storage_of", None)
         if st is not None and st is not self:
             st._write(it, self.fn)          # copy.copy(tensor): another object on the same storage
+
+    def _refresh_views(self):
+        cur = self.fn
+        for w in getattr(self, "_views", ()):
+            fwd = w._view_fwd
+            w.fn = (lambda idx, cur=cur, fwd=fwd: cur(fwd(idx)))
+            w._refresh_views()
+
+    def _register_view(self, view, fwd):
+        view._view_fwd = fwd
+        if not hasattr(self, "_views"):
+            self._views = []
+        self._views.append(view)
 
     # ------------------------------------------------------------------ construction helpers
     @staticmethod
@@ -175,6 +189,7 @@ class STensor(Symbolic):
     def _havoc(self, cx):
         t = STensor.sym(cx, cx.fresh_name(self.name), self.shape_, self.dtype)
         self.fn = t.fn
+        self._refresh_views()
 
     def _deepcopy(self, it, memo):
         return STensor(self.shape_, self.fn, self.dtype, self.name + "'")
@@ -649,6 +664,19 @@ def tensor_getitem(it, t: STensor, idx, node=None):
             k_src += 1
         return tuple(o)
     out._view = (t, in_view, to_view)
+
+    def fwd(out_idx):
+        src_idx, k = [], 0
+        for p in plan:
+            if p[0] == "new":
+                k += 1
+            elif p[0] == "var":
+                src_idx.append(out_idx[k] if (isinstance(p[1], int) and p[1] == 0) else out_idx[k] + p[1])
+                k += 1
+            else:
+                src_idx.append(p[1])
+        return tuple(src_idx)
+    t._register_view(out, fwd)
     return out
 
 
@@ -1192,6 +1220,7 @@ def t_float(it, t, *a, **k):
 def _alias(t):
     r = STensor(t.shape_, t.fn, t.dtype, t.name)
     r._view = (t, lambda b: z3.BoolVal(True), lambda b: tuple(b))
+    t._register_view(r, lambda idx: tuple(idx))
     return r
 
 
